@@ -1,7 +1,7 @@
 #!/usr/bin/env python3
 """Confirm and score sub-agent seeded defects.
 
-For every /tmp/seedout/<ID>/<x>/ (patch.diff, demo.*, meta.json):
+For every /tmp/seedout/<ID>/<x>/ (patch.diff, demo.*, meta.json) - or, when that directory is absent, every /verif/seeded/<ID>-<x>/:
   1. scratch worktree of /repo (outside /repo and /verif): patch applies, the repository tests give the baseline result,
      the demonstration fails with the patch and passes without it;
   2. apply the patch to /repo, run `./check <ID>` (quick, optionally thorough), undo straight afterwards;
@@ -56,12 +56,25 @@ def main():
         if a.startswith("--props="):
             extra = a.split("=", 1)[1].split(",")
     items = []
-    for d in sorted(SRC.glob("C*/*/patch.diff")):
-        pid, x = d.parent.parent.name, d.parent.name
-        tag = f"{pid}-{x}"
-        if args and not any(tag.startswith(a) for a in args):
-            continue
-        items.append((pid, x, d.parent))
+    found = sorted(SRC.glob("C*/*/patch.diff"))
+    if found:
+        for d in found:
+            pid, x = d.parent.parent.name, d.parent.name
+            tag = f"{pid}-{x}"
+            if args and not any(tag.startswith(a) for a in args):
+                continue
+            items.append((pid, x, d.parent))
+    else:
+        # the sub-agents' output directory is gone (fresh restore): re-score the confirmed changes kept under /verif/seeded
+        for d in sorted((ROOT / "seeded").glob("C*-*/patch.diff")):
+            pid, x = d.parent.name.split("-", 1)
+            tag = f"{pid}-{x}"
+            if args and not any(tag.startswith(a) for a in args):
+                continue
+            keep = Path(f"/tmp/seedsrc_{tag}")
+            shutil.rmtree(keep, ignore_errors=True)
+            shutil.copytree(d.parent, keep)
+            items.append((pid, x, keep))
     for pid, x, d in items:
         tag = f"{pid}-{x}"
         out = ROOT / "seeded" / tag
@@ -134,6 +147,9 @@ def main():
                          "what_was_run": "scratch worktree of /repo: git apply, repository test-suite (82 pass / 3 baseline failures), demo with and without the patch; "
                                          "then git -C /repo apply, ./check <ID>, git -C /repo checkout -- ."})
             (out / "meta.json").write_text(json.dumps(meta, indent=1))
+    for _pid, _x, d in items:
+        if str(d).startswith("/tmp/seedsrc_"):
+            shutil.rmtree(d, ignore_errors=True)
     st = sh(["git", "-C", str(REPO), "status", "--short", "--untracked-files=no"]).stdout
     print("repo status:", st.strip() or "clean")
 
